@@ -285,3 +285,71 @@ LEVEL_TEXT = ("Deductive: the selection rule of the property is the machine-chec
 LEVEL_NOTE = ("Trusted: regex engine, purity of user matcher functions, BaseSchema.get_tags, pyvc's Python-subset semantics (E9). "
               "FilterSet.match is used at call sites through its footprint abstraction (assumed reads).")
 TECHNIQUE = "contract-based deductive verification: AST->z3 VC generation on the real functions (pyvc), loop invariants, sidecar contracts, native replay of counter-models"
+
+
+# ------------------------------------------------------------------------------------------------- stateful: links to deselected operations are dropped, all others kept
+ST = "schemathesis.specs.openapi.stateful:"
+_LABELS = ("A", "B", "C")
+
+
+class _SelectedOps(D):
+    """The operations the filters let through: any sub-list of A, B, C (document order)."""
+
+    def make(self, it, name, idx=()):
+        from pyvc.values import VObj
+
+        chosen = [l for l in _LABELS if it.path.choose([(False, True), (True, True)], f"selected:{l}")]
+        it.path.bounded_inputs.add("up to 3 selected operations, up to 2 links on one operation and 1 on the others (thorough: 2 on each), link targets among A, B, C and a never-selected operation")
+        return [VObj(it.resolve_class("spec:StOp"), {"label": l}) for l in chosen]
+
+
+def _links_of(it, env):
+    """get_all_links(operation): 0..2 entries; each a well-formed link to one of A, B, C (selected or not) or to the never-selected Z, or an invalid definition (Err)."""
+    from pyvc.values import VObj
+
+    import os
+
+    op = env["operation"]
+    # quick tier: the first operation asked has up to 2 links, the others up to 1; thorough tier: up to 2 links on every operation
+    first = not it.ghost.get("links")
+    sizes = (0, 1, 2) if first or os.environ.get("PYVC_TIER") == "thorough" else (0, 1)
+    n = it.path.choose([(k, True) for k in sizes], f"n-links:{op.fields['label']}")
+    out = []
+    ok_cls, err_cls = it.resolve_class("schemathesis.core.result:Ok"), it.resolve_class("schemathesis.core.result:Err")
+    for i in range(n):
+        kind = it.path.choose([(t, True) for t in _LABELS + ("Z", "invalid")], f"link{i}:{op.fields['label']}")
+        if kind == "invalid":
+            out.append(("200", it.instantiate(err_cls, [fresh_opaque(it, "InvalidTransitionRef")], {})))
+        else:
+            link = VObj(it.resolve_class("spec:StLink"), {"name": f"{op.fields['label']}{i}", "status_code": "200", "source": op, "target": VObj(it.resolve_class("spec:StOp"), {"label": kind})})
+            out.append(("200", it.instantiate(ok_cls, [link], {})))
+    return out
+
+
+R.contract("schemathesis.specs.openapi.stateful.links:get_all_links", args={"operation": Opq("Any")}, returns=_links_of, trusted=True,
+           effects={"links": "ghost('links') + [(operation.label, r) for _, r in result]"},
+           note="the links documented on the operation's responses, each parsed (Ok) or rejected (Err): OpenApiLink constructor, C10 contracts")
+R.exception_classes["InvalidStateMachine"] = "schemathesis.core.errors:InvalidStateMachine"
+GOOD = "[(src, r.ok()) for src, r in ghost('links') if is_instance(r, 'Ok')]"
+R.contract(
+    ST + "collect_transitions",
+    prop="C07",
+    args={"operations": _SelectedOps()},
+    ghost={"links": []},
+    raises=["InvalidStateMachine"],
+    ensures={
+        # "no request is ever sent to an excluded operation ... including as the target of a stateful link"
+        "no_transition_targets_a_deselected_operation": "all(l.target.label in [o.label for o in operations] for t in result.operations.values() for l in t.outgoing + t.incoming)",
+        # "... and every selected operation is offered": a link between two selected operations is kept, once, on both ends
+        "every_link_between_selected_operations_is_kept": "all(implies(l.target.label in [o.label for o in operations], "
+                                                          "length([x for x in result.operations[src].outgoing if x is l]) == 1 and length([x for x in result.operations[l.target.label].incoming if x is l]) == 1) "
+                                                          "for src, l in " + GOOD + ")",
+        # the link counts reported equal what is offered
+        "nothing_else_is_recorded": "sum(length(t.outgoing) for t in result.operations.values()) == length([l for src, l in " + GOOD + " if l.target.label in [o.label for o in operations]]) and "
+                                    "sum(length(t.incoming) for t in result.operations.values()) == sum(length(t.outgoing) for t in result.operations.values())",
+        "returns_only_without_invalid_links": "all(is_instance(r, 'Ok') for src, r in ghost('links'))",
+    },
+    raises_ensures={"rejected_only_for_an_invalid_link": "raised == 'InvalidStateMachine' and any(is_instance(r, 'Err') for src, r in ghost('links'))"},
+    replayable=False,
+    max_paths=60000,
+)
